@@ -6,7 +6,7 @@ receipt and performs the test-and-set before anything can be emitted; the contro
 a user packet only if no peer DISCONNECT was received (or a protocol error is being reported);
 emission sites are followed by io.close(); cause -> reason-code tables (extracted from MIR) carry the
 dedicated MQTT 5 codes and no error path uses 0x00/0x04. Combinations of initiators in time are not
-decided (the flag is a runtime bit; decided is that no path forgets to consult it). nothing-after (continued): every function of the connection state that both clears the queues (running the application's publish-ack callbacks) and closes the io closes it first. flag-guard (continued): a path of the default control service on which the test-and-set is_disconnect_sent() answered 'not yet' returns a packet. cause-code (continued): in the MQTT 5 server's PUBLISH arm QoS-not-supported is raised only on the `qos > max_qos()` edge and Retain-not-supported only where RETAIN is set and retain_available() is false.
+decided (the flag is a runtime bit; decided is that no path forgets to consult it). nothing-after (continued): every function of the connection state that both clears the queues (running the application's publish-ack callbacks) and closes the io closes it first. flag-guard (continued): a path of the default control service on which the test-and-set is_disconnect_sent() answered 'not yet' returns a packet. cause-code (continued): in the MQTT 5 server's PUBLISH arm QoS-not-supported is raised only on the `qos > max_qos()` edge and Retain-not-supported only where RETAIN is set and retain_available() is false. nothing-after (continued): the Shutdown state of the io dispatcher has no way out before service.poll_shutdown. cause-code (continued): ProtocolViolationError::reason returns the stored reason of a Common violation.
 """
 from facts import *
 from disp import *
